@@ -603,7 +603,9 @@ def parent_main(args):
 		violations=len(viols),
 	)
 	os.makedirs(os.path.join(VERIF, 'evidence'), exist_ok=True)
-	if not errors or viols:
+	# evidence describes runs against /repo itself: a run against another source tree (VERIF_GAMBIT_SRC: mutants, seeded
+	# changes) must not overwrite it
+	if (not errors or viols) and not os.environ.get('VERIF_GAMBIT_SRC'):
 		with open(os.path.join(VERIF, 'evidence', f'{check.ID}.json'), 'w', encoding='utf-8') as f:
 			json.dump(evidence, f, indent=1, default=str)
 			f.write('\n')
